@@ -296,3 +296,54 @@ pub fn gen_arg(tape: &mut Tape, p: &Param, allow_regs: bool, allow_bad: bool) ->
         PKind::Pad(_) => Arg::I(0),
     }
 }
+
+// =============================================================================
+// Parsing signature strings (as found in mapfiles and in the built-in tables)
+
+fn parse_int(s: &str) -> Option<i64> {
+    let s = s.trim();
+    if let Some(h) = s.strip_prefix("0x").or_else(|| s.strip_prefix("0X")) { i64::from_str_radix(h, 16).ok() }
+    else if let Some(b) = s.strip_prefix("0b").or_else(|| s.strip_prefix("0B")) { i64::from_str_radix(b, 2).ok() }
+    else { s.parse().ok() }
+}
+
+impl Sig {
+    pub fn parse(text: &str) -> Result<Sig, String> {
+        let chars: Vec<char> = text.chars().collect();
+        let mut i = 0;
+        let mut params = vec![];
+        while i < chars.len() {
+            let ch = chars[i]; i += 1;
+            if ch.is_whitespace() { continue; }
+            let mut attrs: Vec<(String, Option<String>)> = vec![];
+            // attributes?
+            let mut j = i; while j < chars.len() && chars[j].is_whitespace() { j += 1; }
+            if j < chars.len() && chars[j] == '(' {
+                let close = (j..chars.len()).find(|k| chars[*k] == ')').ok_or("unclosed attribute list")?;
+                let inner: String = chars[j + 1..close].iter().collect();
+                for a in inner.split(';') { let a = a.trim(); if a.is_empty() { continue; } match a.split_once('=') { Some((k, v)) => attrs.push((k.trim().to_string(), Some(v.trim().to_string()))), None => attrs.push((a.to_string(), None)) } }
+                i = close + 1;
+            }
+            let get = |k: &str| attrs.iter().find(|(n, _)| n == k).map(|(_, v)| v.clone());
+            let mut p = match ch {
+                'S' | 'C' | 'n' | 'N' | 'E' | 'U' | 's' | 'u' | 'c' | 'b' | 'f' | 'o' | 't' | '_' | '-' => Param::simple(ch),
+                'z' | 'm' | 'p' | 'P' => {
+                    let mask = match get("mask") { Some(Some(m)) => { let v: Vec<i64> = m.split(',').filter_map(parse_int).collect(); if v.len() != 3 { return Err("mask needs three values".into()); } [v[0] as u8, v[1] as u8, v[2] as u8] } _ => [0, 0, 0] };
+                    let bs = get("bs").flatten().and_then(|v| parse_int(&v));
+                    let len = get("len").flatten().and_then(|v| parse_int(&v));
+                    let size = match (ch, bs, len) {
+                        ('p', Some(b), None) | ('P', Some(b), None) => StrSize::Pascal(b as usize),
+                        (_, Some(b), None) => StrSize::Block(b as usize),
+                        (_, None, Some(l)) => StrSize::Fixed { len: l as usize, nulless: get("nulless").is_some() },
+                        _ => return Err(format!("string parameter '{}' needs bs or len", ch)),
+                    };
+                    Param { ch, kind: PKind::Str { size, mask, furibug: get("furibug").is_some() }, imm: false, arg0: false, hex: false }
+                }
+                c => return Err(format!("unknown signature character {:?}", c)),
+            };
+            p.imm = get("imm").is_some(); p.arg0 = get("arg0").is_some(); p.hex = get("hex").is_some();
+            params.push(p);
+        }
+        Ok(Sig { params })
+    }
+}
